@@ -49,6 +49,8 @@ def build_bucket(ctx, rng, cache, key, nrec):
         assert len(ent) == 1, "pristine record does not parse"
         recs.append({"start": a, "end": b, "entry": ent[0]})
     assert len(recs) == nrec
+    for r, (kind, q) in zip(recs, reqs):
+        r["req"] = q if kind == "lib" else None
     return p, raw, recs
 
 
@@ -83,7 +85,8 @@ def run(ctx):
                 "EACH record cut at EVERY byte length (torn append), EVERY single-bit flip of buckets <= 600 bytes, "
                 "overwrite of a random span with random bytes / NULs / invalid UTF-8, garbage lines inserted between "
                 "records (with and without own newline), a fragment duplicated or moved; then 0-2 further appends "
-                "through the API; then metadata() in sync and both async runtimes and list_sync. Oracles: analytic "
+                "through the API (fresh inserts, removals, and byte-identical REPLAYS of earlier inserts incl. the one whose "
+                "record was damaged; the last acknowledged one decides the lookup); then metadata() in sync and both async runtimes and list_sync. Oracles: analytic "
                 "(span bookkeeping), reference re-parse, phantom check, sync/async agreement. distinct = (damage "
                 "class, position, records in bucket, appends)")
     ctx.assumptions = ["a line that only becomes valid when one trailing CR is stripped may be accepted or rejected",
@@ -168,9 +171,18 @@ def run(ctx):
             with open(p, "wb") as f:
                 f.write(new)
             appended = []
+            acked = 0
+            last_app = None
             for j in range(nappend):
-                if rng.random() < 0.3:
+                rr = rng.random()
+                replayable = [x["req"] for x in recs if x.get("req") and x["req"]["op"] == "index_insert"]
+                if rr < 0.25:
                     q = {"op": "index_delete", "cache": cache, "key": key}
+                elif rr < 0.55 and replayable:
+                    # the caller simply repeats an insert it made before (most often the newest one, whose record may be
+                    # the damaged one): byte-identical request, same explicit time
+                    q = dict(replayable[-1] if rng.random() < 0.7 else rng.choice(replayable))
+                    ctx.count("replayed_inserts_after_damage")
                 else:
                     d = f"appended-{j}".encode()
                     q = {"op": "index_insert", "cache": cache, "key": key,
@@ -179,6 +191,9 @@ def run(ctx):
                 if not ev.is_ok(r):
                     ctx.violation(f"{cls}|append-after-damage|{ev.variant(r)}",
                                   f"append to a damaged bucket failed: {ev.brief(r)}", {"damage": [cls, pos]})
+                else:
+                    acked += 1
+                    last_app = q
             with open(p, "rb") as f:
                 final = f.read()
             tail = final[len(new):]
@@ -217,6 +232,24 @@ def run(ctx):
                    "expected": exp_strict and {k: str(v)[:80] for k, v in exp_strict.items()},
                    "steps": [["harness", {"write_bucket_hex": final[:1500].hex(), "key": key}],
                              ["sync@astd", {"op": "metadata", "cache": "<cache>", "key": key}]]}
+            # the last acknowledged operation after the damage decides the lookup - whatever the damage before it (an
+            # implementation may legitimately skip an append that changes nothing, so records are not counted)
+            if last_app is not None and acked == nappend:
+                for m, r in results.items():
+                    o = r.get("ok", {}).get("entry") if ev.is_ok(r) else "?"
+                    if last_app["op"] == "index_delete":
+                        okay = o is None
+                    else:
+                        lo = last_app["opts"]
+                        okay = (isinstance(o, dict) and o["integrity"] == lo["sri"] and int(o["time"]) == int(lo["time"])
+                                and o["size"] == lo["size"])
+                    if not okay:
+                        ctx.violation(f"{cls}|metadata@{m}|append-after-damage-not-effective",
+                                      f"{cls}@{pos}: the last acknowledged operation after the damage was {last_app['op']}"
+                                      f"({str(last_app.get('opts', ''))[:120]}) but metadata in {m} returned "
+                                      f"{o if not isinstance(o, dict) else ('time=' + o['time'] + ' ' + o['integrity'][:24])}",
+                                      dict(det, last_append=last_app))
+                        break
             views = {}
             for m, r in results.items():
                 ctx.count("lookups_compared")
